@@ -60,7 +60,9 @@ def key(op, impl, M, S):
     """failure class = observation + the schema family + the class of the input that exposed it (never the literal input):
          x-stream   <obs>:<family>:<value class>         value class: pointer chains lose their depth (**T->nil@1 -> T->nil), cyclic
                                                         inputs are `cyclic-input` (`cyclic-ptr-to-interface` for the *any cycle)
-         zero-arg   <obs>:zero-arg:<Method>:<family>     the schema was built with the zero value of every parameter of <Method>
+         extreme    <obs>:extreme-arg:<Method>:<family>  the schema was built with the zero / negative / extreme value of every parameter of <Method>
+         cyclic     <obs>:cyclic-input|cyclic-ptr-to-interface:<family>
+         nil chain  <obs>:nil-chain(<T>):<family>        a pointer chain over T that ends in a nil pointer
          dflt       <obs>:dflt:<Default|Prefault>:<family>  a default / prefault value of the wrong shape
          m-stream   <obs>:<container kind>"""
     import re
@@ -78,15 +80,17 @@ def key(op, impl, M, S):
     if kind.startswith("dflt:"):
         m = re.search(r"\.(Default|Prefault)\(", lab)
         return "%s:dflt:%s:%s" % (ob, m.group(1) if m else "?", fam)
-    z = re.search(r"\.([A-Za-z0-9]+)/zero", lab)
-    if z:
-        return "%s:zero-arg:%s:%s" % (ob, z.group(1), fam)
-    if vname.startswith("cyclic-*any"): vc = "cyclic-ptr-to-interface"
-    elif "cyclic" in vname: vc = "cyclic-input"
-    else:
-        vc = re.sub(r"^\*+", "", vname)
-        vc = re.sub(r"@\d+$", "", vc)
-        vc = re.sub(r"^<(.*)>$", r"nested:\1", vc)
+    z = re.search(r"\.([A-Za-z0-9]+)/(zero|neg|big)", lab)
+    if z and ("[arg-broken]" in lab or "->nil" not in vname):
+        return "%s:extreme-arg:%s:%s" % (ob, z.group(1), fam)
+    if "cyclic" in vname:
+        return "%s:%s:%s" % (ob, "cyclic-ptr-to-interface" if vname.startswith("cyclic-*any") else "cyclic-input", fam)
+    nc = re.match(r"^\**(?:\*any\{)?\**(.*)->nil@\d+\}?$", vname)
+    if nc:      # a pointer chain over T ending in a nil pointer (whatever its depth, also inside a *any)
+        return "%s:nil-chain(%s):%s" % (ob, nc.group(1).replace(" ", ""), fam)
+    vc = re.sub(r"^\*+", "", vname)
+    vc = re.sub(r"@\d+$", "", vc)
+    vc = re.sub(r"^<(.*)>$", r"nested:\1", vc)
     return "%s:%s:%s" % (ob, fam, vc)
 
 def describe(op):
